@@ -1,6 +1,8 @@
 package govc
 
 import (
+	"os"
+	"sync"
 	"fmt"
 	"go/token"
 	"sort"
@@ -12,6 +14,7 @@ type Fact struct {
 	Def   *Term // if non-nil: the defined constant; Body is (= Def expr)
 	Body  *Term
 	Vars  []*Term // quantified variables (const placeholders); nil for ground facts
+	Trigs []trigger
 	Label string
 }
 
@@ -55,6 +58,11 @@ type VC struct {
 	Warn   []string
 	warned map[string]bool
 	Assumptions map[string]bool
+	Skolems []*Term
+	symMu   sync.Mutex
+	Broad   bool // instantiate driven by every select of the query (fallback)
+	symMemo map[*Term]map[string]bool
+	dsymMemo map[*Term]map[string]bool
 }
 
 func NewVC() *VC {
@@ -100,8 +108,21 @@ func (vc *VC) Def(hint string, t *Term) *Term {
 	return c
 }
 
-// Assume adds a guarded ground assumption.
+// Assume adds a guarded ground assumption (conjunctions are split into separate facts).
 func (vc *VC) Assume(guard, f *Term, label string) {
+	if f.Op == "and" {
+		for _, a := range f.Args {
+			vc.Assume(guard, a, label)
+		}
+		return
+	}
+	if f.Op == "=>" && f.Args[1].Op == "and" {
+		g2 := And(guard, f.Args[0])
+		for _, a := range f.Args[1].Args {
+			vc.Assume(g2, a, label)
+		}
+		return
+	}
 	b := Implies(guard, f)
 	if b == True {
 		return
@@ -109,9 +130,122 @@ func (vc *VC) Assume(guard, f *Term, label string) {
 	vc.Facts = append(vc.Facts, Fact{Body: b, Label: label})
 }
 
+// SplitGoal flattens a goal into conjuncts (hyps => atom), at most max pieces.
+func SplitGoal(g *Term, max int) []*Term {
+	var out []*Term
+	var rec func(hyp, t *Term)
+	rec = func(hyp, t *Term) {
+		switch {
+		case t.Op == "and":
+			for _, a := range t.Args {
+				rec(hyp, a)
+			}
+		case t.Op == "=>":
+			rec(And(hyp, t.Args[0]), t.Args[1])
+		default:
+			out = append(out, Implies(hyp, t))
+		}
+	}
+	rec(True, g)
+	if len(out) > max || len(out) == 0 {
+		return []*Term{g}
+	}
+	return out
+}
+
+// isElemArrayTerm: the term is (or operates on) an element array (indexed by 64-bit vectors), i.e. slice contents.
+func isElemArrayTerm(x *Term) bool {
+	if x.S.Kind == "Array" && (x.S.Idx.Kind == "BV" || (x.S.Elem.Kind == "Array" && x.S.Elem.Idx.Kind == "BV")) {
+		return true
+	}
+	return false
+}
+
+func hasArrayOps(t *Term, seen map[*Term]bool) bool {
+	found := false
+	Walk(t, seen, func(x *Term) {
+		if x.Op == "select" || x.Op == "store" || x.S.Kind == "Array" {
+			found = true
+		}
+	})
+	return found
+}
+
+// trigger: a select(arr, idx) subterm of a quantified fact whose index mentions the bound variable.
+type trigger struct {
+	arr, idx, base *Term
+	plain        bool // idx is exactly the bound variable
+}
+
 // AssumeForall adds a quantified fact (instantiated engine-side).
 func (vc *VC) AssumeForall(vars []*Term, guard, body *Term, label string) {
-	vc.Facts = append(vc.Facts, Fact{Body: Implies(guard, body), Vars: vars, Label: label})
+	f := Fact{Body: Implies(guard, body), Vars: vars, Label: label}
+	if len(vars) == 1 {
+		v := vars[0]
+		seen := map[*Term]bool{}
+		have := map[string]bool{}
+		Walk(f.Body, seen, func(x *Term) {
+			if x.Op != "select" || !x.Args[1].S.Eq(v.S) || v.S.Kind != "BV" {
+				return
+			}
+			if !mentions(x.Args[1], v) || mentions(x.Args[0], v) {
+				return
+			}
+			tr := trigger{arr: x.Args[0], idx: x.Args[1]}
+			if x.Args[1] == v {
+				tr.plain = true
+			} else {
+				// linear pattern base + v: base = idx[v := 0]; valid iff idx == base + v syntactically checkable by construction
+				if !linearIn(x.Args[1], v) {
+					return
+				}
+				tr.base = Subst(x.Args[1], map[string]*Term{v.Name: BVLit(0, v.S.W)}, map[*Term]*Term{})
+			}
+			k := fmt.Sprintf("%d|%d", tr.arr.id, tr.idx.id)
+			if !have[k] {
+				have[k] = true
+				f.Trigs = append(f.Trigs, tr)
+			}
+		})
+	}
+	vc.Facts = append(vc.Facts, f)
+}
+
+func mentions(t, v *Term) bool {
+	found := false
+	Walk(t, map[*Term]bool{}, func(x *Term) {
+		if x == v {
+			found = true
+		}
+	})
+	return found
+}
+
+// linearIn: t is a bvadd-tree in which v occurs exactly once, as a summand.
+func linearIn(t, v *Term) bool {
+	if t == v {
+		return true
+	}
+	if t.Op != "bvadd" {
+		return false
+	}
+	l, r := mentions(t.Args[0], v), mentions(t.Args[1], v)
+	if l && !r {
+		return linearIn(t.Args[0], v)
+	}
+	if r && !l {
+		return linearIn(t.Args[1], v)
+	}
+	return false
+}
+
+func usedConsts(asserts []*Term) map[string]*Sort {
+	out := map[string]*Sort{}
+	seen := map[*Term]bool{}
+	for _, a := range asserts {
+		Consts(a, seen, out)
+	}
+	return out
 }
 
 func (vc *VC) DeclFunc(name string, res *Sort, args ...*Sort) {
@@ -134,10 +268,18 @@ func (vc *VC) UF(name string, res *Sort, args ...*Term) *Term {
 
 // Query is a ground SMT query: sat ⇔ the obligation fails.
 type Query struct {
-	Text     string
+	Text     string   // complete query text (header + asserts), without (check-sat)
+	Header   string   // options, declarations, define-funs
+	Asserts  []string // one "(assert ...)" body per entry (the formula text only)
+	Scalars  []string // names of declared scalar constants (for model extraction)
+	Alt      *Query   // sound integer translation (unsat there implies unsat here); nil if not translatable
+	AltWhy   string
 	NInst    int
 	NAsserts int
 }
+
+// UseIntBlast enables the engine's own integer translation as an additional (sound) proof attempt.
+var UseIntBlast = true
 
 type instCfg struct {
 	rounds  int
@@ -146,21 +288,221 @@ type instCfg struct {
 
 // BuildQuery builds the (instantiated, quantifier-free) query for an obligation.
 func (vc *VC) BuildQuery(o *Obligation, extra []*Term) *Query {
+	return vc.BuildQueryFor(o, o.Goal, extra, false)
+}
+
+// ScalarGoal reports whether guard, goal and their definition cone are free of array operations.
+func (vc *VC) ScalarGoal(o *Obligation, goal *Term) bool {
+	seen := map[*Term]bool{}
+	work := []*Term{o.Guard, goal}
+	done := map[int]bool{}
+	for len(work) > 0 {
+		t := work[len(work)-1]
+		work = work[:len(work)-1]
+		arr := false
+		Walk(t, seen, func(x *Term) {
+			if isElemArrayTerm(x) {
+				arr = true
+			}
+			if x.Op == "const" {
+				if di, ok := vc.defs[x.Name]; ok && di < o.NFacts && !done[di] {
+					done[di] = true
+					work = append(work, vc.Facts[di].Body)
+				}
+			}
+		})
+		if arr {
+			return false
+		}
+	}
+	return true
+}
+
+// BuildQueryFor builds the query for one goal piece. light: drop every assumption that mentions arrays
+// and all quantified facts (sound: fewer hypotheses; used as a fast first attempt for scalar goals).
+func (vc *VC) BuildQueryFor(o *Obligation, goal *Term, extra []*Term, light bool) *Query {
+	return vc.BuildQueryRel(o, goal, extra, light, 0)
+}
+
+func isVarOf(f *Fact, name string) bool {
+	for _, v := range f.Vars {
+		if v.Name == name {
+			return true
+		}
+	}
+	return false
+}
+
+// directSyms returns the constant and uninterpreted-function symbols occurring in a term (no definition expansion).
+func (vc *VC) directSyms(t *Term) map[string]bool {
+	vc.symMu.Lock()
+	defer vc.symMu.Unlock()
+	if vc.dsymMemo == nil {
+		vc.dsymMemo = map[*Term]map[string]bool{}
+	}
+	if r, ok := vc.dsymMemo[t]; ok {
+		return r
+	}
+	out := map[string]bool{}
+	Walk(t, map[*Term]bool{}, func(x *Term) {
+		if x.Op == "const" {
+			out[x.Name] = true
+		}
+	})
+	vc.dsymMemo[t] = out
+	return out
+}
+
+// symsOf returns the constant symbols of a term with definitions expanded (memoised per VC).
+func (vc *VC) symsOf(t *Term, limit int) map[string]bool {
+	vc.symMu.Lock()
+	defer vc.symMu.Unlock()
+	if vc.symMemo == nil {
+		vc.symMemo = map[*Term]map[string]bool{}
+	}
+	if r, ok := vc.symMemo[t]; ok {
+		return r
+	}
+	out := map[string]bool{}
+	seen := map[*Term]bool{}
+	work := []*Term{t}
+	for len(work) > 0 {
+		c := work[len(work)-1]
+		work = work[:len(work)-1]
+		Walk(c, seen, func(x *Term) {
+			if x.Op == "const" && !out[x.Name] {
+				out[x.Name] = true
+				if di, ok := vc.defs[x.Name]; ok {
+					work = append(work, vc.Facts[di].Body)
+				}
+			}
+		})
+	}
+	vc.symMemo[t] = out
+	return out
+}
+
+// BuildQueryRel is BuildQueryFor with a relevance depth: depth > 0 keeps only ground assumptions within
+// that many symbol-sharing hops of the goal and guard (dropping hypotheses is sound for validity).
+func (vc *VC) BuildQueryRel(o *Obligation, goal *Term, extra []*Term, light bool, depth int) *Query {
 	facts := vc.Facts[:o.NFacts]
+	// SInE-style premise selection (depth > 0): a fact is triggered by its rarest symbols; starting from the
+	// symbols of the goal and guard, triggered facts are added for `depth` rounds. Definitions are triggered by
+	// the symbol they define. Unselected facts are dropped (sound: fewer hypotheses).
+	var relevant map[int]bool
+	tol := 2.0
+	if depth >= 4 {
+		tol = 4.0
+	}
+	var sineExtend func(ts []*Term)
+	if depth > 0 && !o.MustSat {
+		relevant = map[int]bool{}
+		fsyms := make([]map[string]bool, len(facts))
+		occ := map[string]int{}
+		for i := range facts {
+			fsyms[i] = vc.directSyms(facts[i].Body)
+			for k := range fsyms[i] {
+				occ[k]++
+			}
+		}
+		trig := make([][]string, len(facts))
+		for i := range facts {
+			f := &facts[i]
+			if f.Def != nil {
+				trig[i] = []string{f.Def.Name}
+				continue
+			}
+			min := 1 << 30
+			for k := range fsyms[i] {
+				if f.Vars != nil && isVarOf(f, k) {
+					continue
+				}
+				if occ[k] < min {
+					min = occ[k]
+				}
+			}
+			for k := range fsyms[i] {
+				if f.Vars != nil && isVarOf(f, k) {
+					continue
+				}
+				if float64(occ[k]) <= tol*float64(min) {
+					trig[i] = append(trig[i], k)
+				}
+			}
+		}
+		rel := map[string]bool{}
+		for k := range vc.directSyms(goal) {
+			rel[k] = true
+		}
+		for k := range vc.directSyms(o.Guard) {
+			rel[k] = true
+		}
+		round := func() bool {
+			add := map[string]bool{}
+			changed := false
+			for i := range facts {
+				if relevant[i] {
+					continue
+				}
+				hit := false
+				for _, k := range trig[i] {
+					if rel[k] {
+						hit = true
+						break
+					}
+				}
+				if hit {
+					relevant[i] = true
+					changed = true
+					for k := range fsyms[i] {
+						add[k] = true
+					}
+				}
+			}
+			for k := range add {
+				rel[k] = true
+			}
+			return changed
+		}
+		for d := 0; d < depth; d++ {
+			if !round() {
+				break
+			}
+		}
+		sineExtend = func(ts []*Term) {
+			for _, t := range ts {
+				for k := range vc.directSyms(t) {
+					rel[k] = true
+				}
+			}
+			round()
+		}
+	}
 	// 1. roots: goal, guard, all ground non-definition facts
 	var roots []*Term
-	neg := Not(o.Goal)
+	neg := Not(goal)
 	if o.MustSat {
-		neg = o.Goal
+		neg = goal
 	}
 	roots = append(roots, o.Guard, neg)
 	roots = append(roots, extra...)
 	var qfacts []*Fact
+	arrSeen := map[*Term]bool{}
+	addedGround := map[int]bool{}
 	for i := range facts {
 		f := &facts[i]
 		if f.Vars != nil {
-			qfacts = append(qfacts, f)
+			if !light && (relevant == nil || relevant[i]) {
+				qfacts = append(qfacts, f)
+			}
 		} else if f.Def == nil {
+			if light && vc.factHasArrays(i, arrSeen) {
+				continue
+			}
+			if relevant != nil && !relevant[i] {
+				continue
+			}
+			addedGround[i] = true
 			roots = append(roots, f.Body)
 		}
 	}
@@ -174,7 +516,7 @@ func (vc *VC) BuildQuery(o *Obligation, extra []*Term) *Query {
 	pull := func(t *Term) {
 		Walk(t, seen, func(x *Term) {
 			if x.Op == "const" {
-				if di, ok := vc.defs[x.Name]; ok && di < o.NFacts && !included[di] {
+				if di, ok := vc.defs[x.Name]; ok && di < o.NFacts && !included[di] && (relevant == nil || relevant[di]) {
 					included[di] = true
 					work = append(work, facts[di].Body)
 					asserts = append(asserts, facts[di].Body)
@@ -187,13 +529,188 @@ func (vc *VC) BuildQuery(o *Obligation, extra []*Term) *Query {
 		work = work[:len(work)-1]
 		pull(t)
 	}
-	// 3. instantiate quantified facts over the index terms of the query
+	// 3. instantiate quantified facts. Single-variable facts with select triggers are instantiated
+	//    array-directed: for a trigger select(A, idx(v)) and a ground select(X, t) in the query with X
+	//    related to A (common root array), v := t (plain index) or v := t - base (index base+v).
+	//    Other facts use the pool of index terms / Skolem constants.
 	ninst := 0
 	done := map[string]bool{}
-	for round := 0; round < 2; round++ {
-		pool := collectIndexTerms(asserts)
+	rootMemo := map[*Term]map[*Term]bool{}
+	var arrRoots func(t *Term, depth int) map[*Term]bool
+	arrRoots = func(t *Term, depth int) map[*Term]bool {
+		if r, ok := rootMemo[t]; ok {
+			return r
+		}
+		r := map[*Term]bool{}
+		rootMemo[t] = r
+		if depth > 200 {
+			r[t] = true
+			return r
+		}
+		switch {
+		case t.Op == "const":
+			if di, ok := vc.defs[t.Name]; ok && di < o.NFacts {
+				for k := range arrRoots(facts[di].Body.Args[1], depth+1) {
+					r[k] = true
+				}
+			} else {
+				r[t] = true
+			}
+		case t.Op == "store":
+			for k := range arrRoots(t.Args[0], depth+1) {
+				r[k] = true
+			}
+		case t.Op == "ite":
+			for k := range arrRoots(t.Args[1], depth+1) {
+				r[k] = true
+			}
+			for k := range arrRoots(t.Args[2], depth+1) {
+				r[k] = true
+			}
+		case strings.HasPrefix(t.Op, "(as const"):
+		case t.Op == "select" && t.Args[0].S.Kind == "Array" && t.Args[0].S.Elem.Kind == "Array":
+			// inner array read from a heap component: look through the heap term's stores/ites
+			var look func(h *Term, d int)
+			o := t.Args[1]
+			look = func(h *Term, d int) {
+				if d > 200 {
+					r[t] = true
+					return
+				}
+				switch {
+				case h.Op == "const":
+					if di, ok := vc.defs[h.Name]; ok && di < len(facts) {
+						look(facts[di].Body.Args[1], d+1)
+					} else {
+						r[mk("select", t.S, h, o)] = true
+					}
+				case h.Op == "store":
+					if h.Args[1] == o {
+						for k := range arrRoots(h.Args[2], depth+1) {
+							r[k] = true
+						}
+					} else {
+						look(h.Args[0], d+1)
+					}
+				case h.Op == "ite":
+					look(h.Args[1], d+1)
+					look(h.Args[2], d+1)
+				default:
+					r[t] = true
+				}
+			}
+			look(t.Args[0], 0)
+		default:
+			r[t] = true
+		}
+		return r
+	}
+	related := func(a, b *Term) bool {
+		ra, rb := arrRoots(a, 0), arrRoots(b, 0)
+		for k := range ra {
+			if rb[k] {
+				return true
+			}
+		}
+		return false
+	}
+	addInst := func(f *Fact, m map[string]*Term, key string, out *[]*Term) {
+		if done[key] {
+			return
+		}
+		done[key] = true
+		inst := Subst(f.Body, m, map[*Term]*Term{})
+		if inst != True {
+			*out = append(*out, inst)
+			ninst++
+		}
+	}
+	gen0 := map[*Term]bool{}
+	{
+		seen0 := map[*Term]bool{}
+		for _, a := range asserts {
+			Walk(a, seen0, func(x *Term) {
+				if x.Op == "select" {
+					gen0[x.Args[1]] = true
+				}
+			})
+		}
+	}
+	// goal-directed: instantiation is driven by the selects of the goal, the guard, their definition cone and
+	// the instances generated so far (broad: by every select of the query).
+	var drivers []*Term
+	if os.Getenv("GOVC_BROAD") != "" {
+		vc.Broad = true
+	}
+	if !vc.Broad {
+		dseen := map[*Term]bool{}
+		dincl := map[int]bool{}
+		dwork := []*Term{o.Guard, neg}
+		for len(dwork) > 0 {
+			t := dwork[len(dwork)-1]
+			dwork = dwork[:len(dwork)-1]
+			drivers = append(drivers, t)
+			Walk(t, dseen, func(x *Term) {
+				if x.Op == "const" {
+					if di, ok := vc.defs[x.Name]; ok && di < o.NFacts && !dincl[di] {
+						dincl[di] = true
+						dwork = append(dwork, facts[di].Body)
+					}
+				}
+			})
+		}
+	}
+	for round := 0; round < 8; round++ {
 		var newAsserts []*Term
+		// ground selects that drive instantiation
+		type gsel struct{ arr, idx *Term }
+		var gsels []gsel
+		seenS := map[*Term]bool{}
+		src := asserts
+		if !vc.Broad {
+			src = drivers
+		}
+		for _, a := range src {
+			Walk(a, seenS, func(x *Term) {
+				if x.Op == "select" && x.Args[0].S.Idx.Kind == "BV" {
+					gsels = append(gsels, gsel{x.Args[0], x.Args[1]})
+				}
+			})
+		}
+		pool := collectIndexTerms(asserts, vc.Skolems)
 		for _, f := range qfacts {
+			if len(f.Vars) == 1 && len(f.Trigs) > 0 {
+				v := f.Vars[0]
+				for ti, tr := range f.Trigs {
+					for _, gs := range gsels {
+						if !gs.idx.S.Eq(v.S) || !related(gs.arr, tr.arr) {
+							continue
+						}
+						var val *Term
+						if tr.plain {
+							val = gs.idx
+						} else {
+							if !gen0[gs.idx] {
+								continue // linear patterns only match original index terms (termination)
+							}
+							val = BVBin("bvsub", gs.idx, tr.base)
+						}
+						addInst(f, map[string]*Term{v.Name: val}, fmt.Sprintf("%p|%d|%d", f, ti, val.id), &newAsserts)
+					}
+				}
+				// Skolem constants are always candidates
+				for _, sk := range vc.Skolems {
+					if sk.S.Eq(v.S) {
+						if _, used := usedConsts(asserts)[sk.Name]; used {
+							addInst(f, map[string]*Term{v.Name: sk}, fmt.Sprintf("%p|sk|%d", f, sk.id), &newAsserts)
+						}
+					}
+				}
+				continue
+			}
+			if round >= 2 {
+				continue
+			}
 			cands := make([][]*Term, len(f.Vars))
 			ok := true
 			for vi, v := range f.Vars {
@@ -210,7 +727,6 @@ func (vc *VC) BuildQuery(o *Obligation, extra []*Term) *Query {
 				total *= len(c)
 			}
 			if total > 3000 {
-				// too many: restrict each variable's candidates
 				for vi := range cands {
 					if len(cands[vi]) > 40 {
 						cands[vi] = cands[vi][:40]
@@ -223,17 +739,9 @@ func (vc *VC) BuildQuery(o *Obligation, extra []*Term) *Query {
 				key := fmt.Sprintf("%p", f)
 				for vi, v := range f.Vars {
 					m[v.Name] = cands[vi][idx[vi]]
-					key += "|" + cands[vi][idx[vi]].String()
+					key += fmt.Sprintf("|%d", cands[vi][idx[vi]].id)
 				}
-				if !done[key] {
-					done[key] = true
-					inst := Subst(f.Body, m, map[*Term]*Term{})
-					if inst != True {
-						newAsserts = append(newAsserts, inst)
-						ninst++
-					}
-				}
-				// next
+				addInst(f, m, key, &newAsserts)
 				k := 0
 				for k < len(idx) {
 					idx[k]++
@@ -251,23 +759,89 @@ func (vc *VC) BuildQuery(o *Obligation, extra []*Term) *Query {
 		if len(newAsserts) == 0 {
 			break
 		}
+		if sineExtend != nil {
+			before := len(relevant)
+			sineExtend(newAsserts)
+			if len(relevant) != before {
+				for i := range facts {
+					f := &facts[i]
+					if !relevant[i] || f.Vars != nil || f.Def != nil || addedGround[i] {
+						continue
+					}
+					if light && vc.factHasArrays(i, arrSeen) {
+						continue
+					}
+					addedGround[i] = true
+					newAsserts = append(newAsserts, f.Body)
+				}
+			}
+		}
 		for _, a := range newAsserts {
 			asserts = append(asserts, a)
 			work = append(work, a)
+			drivers = append(drivers, a)
 		}
+		nb := len(asserts)
 		for len(work) > 0 {
 			t := work[len(work)-1]
 			work = work[:len(work)-1]
 			pull(t)
 		}
+		drivers = append(drivers, asserts[nb:]...)
+		if ninst > 4000 {
+			break
+		}
 	}
 	// 4. print
-	return &Query{Text: vc.printQuery(asserts), NInst: ninst, NAsserts: len(asserts)}
+	q := vc.printQuery(asserts)
+	q.NInst = ninst
+	q.NAsserts = len(asserts)
+	if !o.MustSat && UseIntBlast {
+		dm := map[string]*Term{}
+		for name, di := range vc.defs {
+			if di < o.NFacts && included[di] {
+				dm[name] = facts[di].Body.Args[1]
+			}
+		}
+		if ia, ok, why := IntBlast(asserts, dm); ok {
+			q.Alt = vc.printQuery(ia)
+		} else {
+			q.AltWhy = why
+		}
+	}
+	return q
+}
+
+// factHasArrays: does ground fact i (with its definition cone) mention arrays?
+func (vc *VC) factHasArrays(i int, memo map[*Term]bool) bool {
+	work := []*Term{vc.Facts[i].Body}
+	done := map[int]bool{}
+	seen := map[*Term]bool{}
+	for len(work) > 0 {
+		t := work[len(work)-1]
+		work = work[:len(work)-1]
+		arr := false
+		Walk(t, seen, func(x *Term) {
+			if isElemArrayTerm(x) {
+				arr = true
+			}
+			if x.Op == "const" {
+				if di, ok := vc.defs[x.Name]; ok && di < i && !done[di] {
+					done[di] = true
+					work = append(work, vc.Facts[di].Body)
+				}
+			}
+		})
+		if arr {
+			return true
+		}
+	}
+	return false
 }
 
 // collectIndexTerms gathers, per sort, the ground terms used as select indices
 // (and as arguments of uninterpreted functions).
-func collectIndexTerms(asserts []*Term) map[string][]*Term {
+func collectIndexTerms(asserts []*Term, skolems []*Term) map[string][]*Term {
 	pool := map[string][]*Term{}
 	have := map[string]bool{}
 	seen := map[*Term]bool{}
@@ -278,12 +852,18 @@ func collectIndexTerms(asserts []*Term) map[string][]*Term {
 			pool[t.S.String()] = append(pool[t.S.String()], t)
 		}
 	}
+	skol := map[string]bool{}
+	for _, sk := range skolems {
+		skol[sk.Name] = true
+	}
 	for _, a := range asserts {
 		Walk(a, seen, func(x *Term) {
 			if x.Op == "select" {
 				add(x.Args[1])
 			} else if x.Op == "store" {
 				add(x.Args[1])
+			} else if x.Op == "const" && skol[x.Name] {
+				add(x)
 			}
 		})
 	}
@@ -293,23 +873,39 @@ func collectIndexTerms(asserts []*Term) map[string][]*Term {
 	return pool
 }
 
-func (vc *VC) printQuery(asserts []*Term) string {
+func (vc *VC) printQuery(asserts []*Term) *Query {
 	var b strings.Builder
-	b.WriteString("(set-option :produce-models true)\n(set-logic ALL)\n")
+	q := &Query{}
+	b.WriteString("(set-logic ALL)\n")
 	consts := map[string]*Sort{}
 	seen := map[*Term]bool{}
 	usedF := map[string]bool{}
+	altF := map[string]string{}
 	for _, a := range asserts {
 		Walk(a, seen, func(x *Term) {
 			if x.Op == "const" {
 				consts[x.Name] = x.S
 			} else if _, ok := vc.funcs[x.Op]; ok {
 				usedF[x.Op] = true
+			} else if strings.HasSuffix(x.Op, "$i") {
+				if _, ok := altF[x.Op]; !ok {
+					var as []string
+					for _, a := range x.Args {
+						as = append(as, a.S.String())
+					}
+					altF[x.Op] = fmt.Sprintf("(declare-fun %s (%s) %s)\n", x.Op, strings.Join(as, " "), x.S)
+				}
 			}
 		})
 	}
 	for _, k := range sortedKeys(consts) {
 		fmt.Fprintf(&b, "(declare-fun |%s| () %s)\n", k, consts[k])
+		if consts[k].Kind != "Array" {
+			q.Scalars = append(q.Scalars, k)
+		}
+	}
+	for _, k := range sortedKeys(altF) {
+		b.WriteString(altF[k])
 	}
 	for _, k := range sortedKeys(usedF) {
 		f := vc.funcs[k]
@@ -319,15 +915,76 @@ func (vc *VC) printQuery(asserts []*Term) string {
 		}
 		fmt.Fprintf(&b, "(declare-fun %s (%s) %s)\n", f.Name, strings.Join(as, " "), f.Res)
 	}
+	// DAG printing: shared non-leaf subterms become define-funs (macros), so the text stays linear in the DAG size
+	refs := map[*Term]int{}
+	var order []*Term
+	seen2 := map[*Term]bool{}
+	var visit func(t *Term)
+	visit = func(t *Term) {
+		refs[t]++
+		if seen2[t] {
+			return
+		}
+		seen2[t] = true
+		for _, a := range t.Args {
+			visit(a)
+		}
+		order = append(order, t)
+	}
+	for _, a := range asserts {
+		visit(a)
+	}
+	names := map[*Term]string{}
+	for _, t := range order {
+		if len(t.Args) > 0 && refs[t] > 1 {
+			nm := fmt.Sprintf("t!%d", t.id)
+			fmt.Fprintf(&b, "(define-fun |%s| () %s ", nm, t.S)
+			writeTermN(&b, t, names, true)
+			b.WriteString(")\n")
+			names[t] = nm
+		}
+	}
+	q.Header = b.String()
 	for _, a := range asserts {
 		if a == True {
 			continue
 		}
+		var ab strings.Builder
+		writeTermN(&ab, a, names, false)
+		q.Asserts = append(q.Asserts, ab.String())
 		b.WriteString("(assert ")
-		writeTerm(&b, a)
+		b.WriteString(ab.String())
 		b.WriteString(")\n")
 	}
-	return b.String()
+	q.Text = b.String()
+	return q
+}
+
+func writeTermN(b *strings.Builder, t *Term, names map[*Term]string, top bool) {
+	if !top {
+		if nm, ok := names[t]; ok {
+			b.WriteByte('|')
+			b.WriteString(nm)
+			b.WriteByte('|')
+			return
+		}
+	}
+	switch t.Op {
+	case "const":
+		b.WriteByte('|')
+		b.WriteString(t.Name)
+		b.WriteByte('|')
+	case "lit":
+		b.WriteString(t.Name)
+	default:
+		b.WriteByte('(')
+		b.WriteString(t.Op)
+		for _, a := range t.Args {
+			b.WriteByte(' ')
+			writeTermN(b, a, names, false)
+		}
+		b.WriteByte(')')
+	}
 }
 
 func writeTerm(b *strings.Builder, t *Term) {
